@@ -37,6 +37,7 @@ class _Builder:
         self.locals = [dict(l) for l in root.d["locals"]]
         self.nlocals = max([l["id"] for l in self.locals] + [0]) + 1
         self.inlined = []
+        self.closure_bind = {}      # new-space local -> closure body bound to it (closure argument of an inlined higher-order helper)
 
     def new_local(self, ty):
         i = self.nlocals
@@ -123,6 +124,14 @@ class _Builder:
                 if k == "call":
                     nt["args"] = [self.operand(a, lm) for a in t["args"]]
                     nt["dst"] = self.place(t["dst"], lm)
+                    ind = t["callee"].get("indirect") if isinstance(t["callee"], dict) else None
+                    if isinstance(ind, str):
+                        # a call through a fn pointer / closure value held in a local (`move _9`): keep track of the local under renaming
+                        mm = re.match(r"^(?:move|copy) _(\d+)$", ind.strip())
+                        if mm and int(mm.group(1)) in lm:
+                            nt["callee"] = dict(t["callee"], indirect_local=lm[int(mm.group(1))])
+                    elif isinstance(t["callee"], dict) and "indirect_local" in t["callee"] and t["callee"]["indirect_local"] in lm:
+                        nt["callee"] = dict(t["callee"], indirect_local=lm[t["callee"]["indirect_local"]])
             nb["term"] = nt
         # second pass: inline calls / instantiate closures (needs the renamed terminators)
         mine = [self.blocks[bm[bid]] for bid in sorted(b.blocks)]
@@ -142,13 +151,25 @@ class _Builder:
         c = t["callee"]
         if len(self.blocks) > MAX_TOTAL_BLOCKS:
             return
-        target = self.inline_target(c, depth, stack)
+        # closures among the arguments (a higher-order private helper is only meaningful together with the closure it is handed)
+        arg_clos = {}
+        for k, a in enumerate(t["args"]):
+            p = op_place(a)
+            if p is not None and not p["proj"]:
+                cb0 = self.closure_of_local(p["local"])
+                if cb0 is not None:
+                    arg_clos[k] = cb0
+        if self.direct_closure_call(nb, t, depth, stack, file):
+            return
+        target = self.inline_target(c, depth, stack, higher_order=bool(arg_clos))
         if target is not None and t.get("target") is not None:
             # parameters
             clm = {l["id"]: self.new_local(l["ty"]) for l in target.d["locals"]}
             for k, a in enumerate(t["args"]):
                 if k + 1 <= target.argc:
                     nb["stmts"].append({"dst": {"local": clm[k + 1], "proj": []}, "rv": {"k": "use", "ops": [a]}, "line": t.get("line"), "file": file})
+                    if k in arg_clos:
+                        self.closure_bind[clm[k + 1]] = arg_clos[k]
             cont = self.new_block(nb["cleanup"])
             cont["term"] = {"k": "goto", "target": t["target"], "line": t.get("line"), "exp": False, "file": file}
             entry = self.copy_body(target, clm, (t["dst"], cont["id"]), t.get("unwind"), depth + 1, stack + (target.path,), target.file)
@@ -699,15 +720,65 @@ class _Builder:
         d = t["dst"]
         return "ghost"
 
-    def closure_of_local(self, new_local):
-        """closure body whose value was built into this (new-space) local by an aggregate statement"""
+    def closure_of_local(self, new_local, _depth=0):
+        """closure body whose value was built into this (new-space) local by an aggregate statement, bound to it as the parameter of an
+        inlined helper, or reached through a plain copy / move / reference of such a local"""
+        if new_local in self.closure_bind:
+            return self.closure_bind[new_local]
+        found = None
         for blk in self.blocks:
             for s in blk["stmts"]:
-                if s["dst"]["local"] == new_local and not s["dst"]["proj"] and s["rv"]["k"] == "aggregate" and "closure" in s["rv"]:
-                    return self.f.body(s["rv"]["closure"])
-        return None
+                if s["dst"]["local"] == new_local and not s["dst"]["proj"]:
+                    rv = s["rv"]
+                    if rv["k"] == "aggregate" and "closure" in rv:
+                        return self.f.body(rv["closure"])
+                    src = None
+                    if rv["k"] == "use" or (rv["k"] == "cast" and "ClosureFnPointer" in rv.get("cast", "")):
+                        src = op_place(rv["ops"][0])
+                    elif rv["k"] == "ref":
+                        src = rv["place"]
+                    if src is not None and all(e == "deref" for e in src["proj"]) and src["local"] != new_local and _depth < 4:
+                        found = found or self.closure_of_local(src["local"], _depth + 1)
+        return found
 
-    def inline_target(self, c, depth, stack):
+    def direct_closure_call(self, nb, t, depth, stack, file):
+        """`Fn::call(&f, (a, b))` / call_mut / call_once on a closure we can see (typically the closure parameter of an inlined higher-order
+        helper): replace the call by a copy of the closure body, parameters bound to the components of the argument tuple"""
+        c = t["callee"]
+        if t.get("target") is None or depth >= MAX_DEPTH or len(self.blocks) > MAX_TOTAL_BLOCKS:
+            return False
+        if "indirect_local" in c:
+            # call through a fn pointer that a non-capturing closure was coerced to: arguments are passed directly
+            cb = self.closure_of_local(c["indirect_local"])
+            if cb is None or cb.path in stack or len(t["args"]) != cb.argc - 1:
+                return False
+            clm = {l["id"]: self.new_local(l["ty"]) for l in cb.d["locals"]}
+            for i in range(2, cb.argc + 1):
+                nb["stmts"].append({"dst": {"local": clm[i], "proj": []}, "rv": {"k": "use", "ops": [t["args"][i - 2]]}, "line": t.get("line"), "file": file})
+        else:
+            if c.get("name") not in ("call", "call_mut", "call_once") or not (c.get("trait") or "").startswith("std::ops::Fn") or len(t["args"]) != 2:
+                return False
+            fp, ap = op_place(t["args"][0]), op_place(t["args"][1])
+            if fp is None or ap is None or any(e != "deref" for e in fp["proj"]):
+                return False
+            cb = self.closure_of_local(fp["local"])
+            if cb is None or cb.path in stack:
+                return False
+            clm = {l["id"]: self.new_local(l["ty"]) for l in cb.d["locals"]}
+            nb["stmts"].append({"dst": {"local": clm[1], "proj": []}, "rv": {"k": "use", "ops": [t["args"][0]]}, "line": t.get("line"), "file": file})
+            for i in range(2, cb.argc + 1):
+                comp = {"local": ap["local"], "proj": list(ap["proj"]) + [{"field": str(i - 2), "idx": i - 2, "of": ""}]}
+                nb["stmts"].append({"dst": {"local": clm[i], "proj": []}, "rv": {"k": "use", "ops": [{"copy": comp, "ty": cb.ltype.get(i, "")}]},
+                                    "line": t.get("line"), "file": file})
+        cont = self.new_block(nb["cleanup"])
+        cont["term"] = {"k": "goto", "target": t["target"], "line": t.get("line"), "exp": False, "file": file}
+        cont["src"], cont["stack"] = nb.get("src"), nb.get("stack")
+        entry = self.copy_body(cb, clm, (t["dst"], cont["id"]), t.get("unwind"), depth + 1, stack + (cb.path,), cb.file)
+        self.inlined.append(cb.path)
+        nb["term"] = {"k": "goto", "target": entry, "line": t.get("line"), "exp": False, "file": file, "closure": cb.path}
+        return True
+
+    def inline_target(self, c, depth, stack, higher_order=False):
         if depth >= MAX_DEPTH or "path" not in c or c.get("crate") != "specs":
             return None
         if c.get("trait") and not c.get("resolved"):
@@ -724,8 +795,9 @@ class _Builder:
             return None     # API functions and trait methods are analysed on their own
         if tb.argc == 1 and tb.ltype.get(0) == "bool" and tb.ltype.get(1, "").startswith("&"):
             return None     # `fn(&self) -> bool` state queries (emission switches, liveness flags) are what guards are recognised by
-        if any("sync::atomic::Atomic" in tb.ltype.get(i, "") for i in range(1, tb.argc + 1)):
-            return None     # helpers that are handed an atomic are the RMW primitives C10 / C01 are written over
+        if any("sync::atomic::Atomic" in tb.ltype.get(i, "") for i in range(1, tb.argc + 1)) and not higher_order:
+            return None     # helpers that are handed an atomic are the RMW primitives C10 / C01 are written over (a helper that is also
+                            # handed a closure - a CAS loop parameterised by its step - only means something once that closure is substituted)
         if tb.self_ty in ROLE_TYPES and (not stack or self.f.body(stack[0]) is None or self.f.body(stack[0]).self_ty != tb.self_ty):
             return None
         return tb
